@@ -430,6 +430,10 @@ pub fn gen_setp(rng: &mut crate::prng::Rng, is_u16: bool) -> SetP {
     } else {
         *rng.pick(&[65534u64, 30, 1 << 20, (1u64 << 32) - 2, 1 << 40])
     };
+    if rng.chance(0.12) {
+        // the regime that needs wide registers: b very close to 1, large q (u32 values above 65535, u16 saturating)
+        return SetP::new(1.0001, *rng.pick(&[20.0, 100.0, 1.0e6]), 1 << 20);
+    }
     SetP::new(b, a, q)
 }
 
@@ -479,6 +483,8 @@ pub fn f32_tie_pairs(spec: &USpec) -> Vec<(u64, u64)> {
 /// An unrelated sketcher of the same type but other size / parameters, built, used and dropped: state shared
 /// between instances (statics, thread-locals, caches keyed incompletely) must not leak into the run's nodes.
 pub fn decoy_unode(spec: &USpec) {
+    let mut variants: Vec<USpec> = vec![];
+    // another size and clearly other parameters
     let mut d = spec.clone();
     d.use_default = false;
     d.m = spec.m + 1 + spec.m / 2;
@@ -486,15 +492,51 @@ pub fn decoy_unode(spec: &USpec) {
         sp.a_bits = (sp.a() * 2.0).to_bits();
         sp.q = sp.q.saturating_add(3);
     }
-    let mut n = make_unode(&d);
-    for k in 0..3u64 {
-        n.deliver(0xdec0_0000 + k);
+    variants.push(d);
+    if let Some(sp) = spec.setp {
+        // same size, parameters that differ only slightly (caches keyed by rounded parameters)
+        let mut d = spec.clone();
+        d.use_default = false;
+        d.setp = Some(SetP::new(sp.b(), sp.a() * (1.0 + 1.0 / 64.0), sp.q));
+        variants.push(d);
+        let mut d = spec.clone();
+        d.use_default = false;
+        d.setp = Some(SetP::new(1.0 + (sp.b() - 1.0) * 1.01, sp.a(), sp.q));
+        variants.push(d);
+        // the other register type (statics inside generic code are shared by all instantiations)
+        let mut d = spec.clone();
+        d.use_default = false;
+        d.kind = if spec.kind == UKind::SetU16 { UKind::SetU32 } else { UKind::SetU16 };
+        variants.push(d);
+    } else {
+        // the other float / integer instantiation of the same sketcher
+        let other = match spec.kind {
+            UKind::SmhF64 => Some(UKind::SmhF32),
+            UKind::SmhF32 => Some(UKind::SmhF64),
+            UKind::OptF64 => Some(UKind::OptF32),
+            UKind::OptF32 => Some(UKind::OptF64),
+            UKind::RevF64 => Some(UKind::RevF32),
+            UKind::RevF32 => Some(UKind::RevF64),
+            UKind::Smh2U64 => None,
+            _ => None,
+        };
+        if let Some(k) = other {
+            let mut d = spec.clone();
+            d.kind = k;
+            variants.push(d);
+        }
     }
-    if d.kind.is_dens() {
-        n.finish();
-    }
-    std::hint::black_box(n.views().len());
-    if let Some(x) = n.set_extras() {
-        std::hint::black_box(x);
+    for d in variants {
+        let mut n = make_unode(&d);
+        for k in 0..3u64 {
+            n.deliver(0xdec0_0000 + k);
+        }
+        if d.kind.is_dens() {
+            n.finish();
+        }
+        std::hint::black_box(n.views().len());
+        if let Some(x) = n.set_extras() {
+            std::hint::black_box(x);
+        }
     }
 }
